@@ -35,6 +35,11 @@ sub-containers printed again (keys fault/after-abort/...).  THREAD part (E3, vf/
 two threads pretty-printing objects that share a sub-container, every interleaving of the
 lines of rich.pretty with <=1 preemption (keys threads/...).
 
+ESC-STRINGS stratum: all str / bytes of length <=4 (<=5 thorough) over characters whose repr is
+an escape (newline, tab, backslash, both quotes, NUL, 0x80) x max_string 0..3, as root / element /
+dict value / dict key.  KEYS stratum: mappings keyed by None, falsy keys, tuple keys holding None
+and ==-but-different keys (1 / True / 1.0).
+
 Cost: ~110-120 us CPU per evaluation (half of it Rich itself). quick = 2.44 M
 evaluations (~215-270 CPU-s, ~15-20 s wall on 16 idle cores); thorough = 52.7 M
 evaluations + 178 560 histories (~6 000 CPU-s estimated, ~7 min wall on 16 idle cores). The development machine
@@ -427,6 +432,53 @@ def params_eq():
             (80, 4, True, None, None), (80, 4, False, 1, 1), (80, 4, False, None, 0), (12, 1, False, 2, None)]
 
 
+# strings / bytes whose repr is longer than the text (escapes), for the truncation options
+ESC_CHARS = ["a", "\n", "\t", "\\", "'", '"', "\x00", "あ"]
+ESC_BYTES = [b"a", b"\n", b"\\", b"'", b'"', b"\x80"]
+
+
+def stratum_esc(maxlen):
+    """every string over ESC_CHARS and every bytes over ESC_BYTES of length 1..maxlen, as the root, as a
+    list element, as a dict value and as a dict key (so each escape sits at every position relative to
+    every cut max_string = 0..3)"""
+    for n in range(1, maxlen + 1):
+        for alphabet, join in ((ESC_CHARS, "".join), (ESC_BYTES, b"".join)):
+            for t in itertools.product(alphabet, repeat=n):
+                leaf = L(join(t))
+                yield leaf
+                yield ("list", (leaf,))
+                yield ("dict", ((L("k"), leaf),))
+                yield ("dict", ((leaf, L0),))
+
+
+def params_esc():
+    return [(80, 4, False, None, ms) for ms in (None, 0, 1, 2, 3)] + [(80, 4, False, 1, 2), (3, 2, False, None, 1)]
+
+
+# mapping keys: None, falsy keys, tuple keys holding None, keys that are == but differ in type
+KEY_VALUES = [None, 0, "", False, (), (None,), (None, 0), 1, True, 1.0, 0.0, "a", b"", frozenset()]
+
+
+def _key_desc(v):
+    if type(v) is tuple:
+        return ("tuple", tuple(_key_desc(x) for x in v))
+    if type(v) is frozenset:
+        return ("frozenset", ())
+    return L(v)
+
+
+def stratum_keys():
+    """dict / defaultdict / Counter with 1..2 keys (every ordered pair) from KEY_VALUES, values from a
+    leaf, None and a list; and the same dicts as a list element"""
+    keys = [_key_desc(v) for v in KEY_VALUES]
+    vals = [L0, L(None), ("list", (L0,))]
+    for kind, vs in (("dict", vals), ("defaultdict", vals), ("Counter", [L(1), L(2)])):
+        for t in _maps(keys, vs, 1, 2):
+            yield (kind, t)
+    for t in _maps(keys, [L0], 1, 2):
+        yield ("list", (("dict", t), L0))
+
+
 CHAIN_KINDS = ("list", "tuple", "dict", "deque", "frozenset", "defaultdict")
 
 
@@ -567,7 +619,7 @@ _PARAMS = {}
 def param_set(name):
     if name not in _PARAMS:
         _PARAMS[name] = {"base": params_base, "trunc": params_trunc, "full": params_full,
-                         "graph": params_graph, "eq": params_eq,
+                         "graph": params_graph, "eq": params_eq, "esc": params_esc,
                          "base+trunc": lambda: params_base() + params_trunc(),
                          "base+trunc8": lambda: params_base() + params_trunc(ALL_TRUNC_COMBOS),
                          "base+trunc2": lambda: params_base() + params_trunc(((0, 0), (1, 1), (2, 3)), (4, 10, 16, 24, 80),
@@ -870,6 +922,15 @@ class Walker:
         children = list(obj.items()) if mapping else list(obj)
         n = len(children)
         tag = "%s:%s" % (kind, _arity(n))
+        if mapping:
+            braces = pn if pn.kind == "{" else (pn.items[-1][1] if pn.kind == "call" and pn.items
+                                                  and pn.items[-1][1].kind == "{" else None)
+            if braces is not None:
+                for kpn, vpn in braces.items:
+                    if kpn is None and _is_marker(vpn) is None:
+                        raise Mismatch("evalback/mapping/item-without-key",
+                                       "a %s item is printed as the bare value %s, its key is missing"
+                                       % (kind, vpn.text if vpn.kind == "atom" else vpn.kind + "..."))
         pk, items, _payload = interp(pn)
         if pk == "dict-or-set":
             pk = kind if kind in ("dict", "set") else ("set" if kind == "frozenset" else "dict")
@@ -1879,6 +1940,8 @@ def _strata(tier):
             ("d1<=2", lambda: stratum_d1(2), "base+trunc"),
             ("d2<=2", stratum_d2_quick, "base+trunc"),
             ("eq-leaves<=3", lambda: stratum_eq(3), "eq"),
+            ("esc-strings<=4", lambda: stratum_esc(4), "esc"),
+            ("keys", stratum_keys, "eq"),
             ("graphs1", lambda: stratum_graphs(1, ("list", "dict", "deque", "defaultdict", "tuple")), "graph"),
             ("graphs2", lambda: stratum_graphs(2, ("list", "dict", "tuple", "deque")), "graph"),
         ]
@@ -1891,6 +1954,8 @@ def _strata(tier):
         ("d3", stratum_d3, "base+trunc2"),
         ("chains4-6", stratum_chains, "base"),
         ("eq-leaves<=4", lambda: stratum_eq(4), "eq"),
+        ("esc-strings<=5", lambda: stratum_esc(5), "esc"),
+        ("keys", stratum_keys, "eq"),
         ("graphs1", lambda: stratum_graphs(1, ("list", "dict", "deque", "defaultdict", "tuple")), "graph"),
         ("graphs2", lambda: stratum_graphs(2, ("list", "dict", "tuple", "deque", "defaultdict")), "graph"),
         ("graphs3", lambda: stratum_graphs(3, ("list", "dict", "tuple")), "graph"),
@@ -2006,6 +2071,12 @@ def describe(tier, seed, res):
              "Pretty instance; every render whose current representation fits the width line by line is judged: it must "
              "evaluate back to (walk-match) the CURRENT object and equal pretty_repr of it."
              % (len(H_VALUES), list(H_MUTATIONS), len(H_VARIANTS), 3 if tier == "quick" else 4, H_W1, H_W1, H_W2))
+    rule += (" ESC-STRINGS stratum: every str over {a, newline, tab, backslash, ', \", NUL, wide char} and every bytes over "
+             "{a, newline, backslash, ', \", 0x80} of length 1..%d, as root / list element / dict value / dict key, x max_string "
+             "None,0,1,2,3 (+ two combined vectors): the shown literal must evaluate to value[:max_string] and '+N' == len - "
+             "max_string. KEYS stratum: dict/defaultdict/Counter with 1..2 keys (all ordered pairs) from {None, 0, '', False, (), "
+             "(None,), (None,0), 1, True, 1.0, 0.0, 'a', b'', frozenset()} x 3 values, also nested in a list, x 7 vectors: every "
+             "item must be printed as key: value with a key that evaluates (type-strictly) to the key." % (4 if tier == "quick" else 5))
     rule += (" EQ-LEAVES stratum: every list/tuple/deque/dict-values/defaultdict-values of 2..%d leaves from {1, True, 1.0, 0, "
              "False, 0.0, -0.0, '', None} (leaves that are == but differ in type or repr), sets/frozensets of 2, and two mixed "
              "shapes holding three of them as list element, tuple element and dict value of one object, x 7 parameter vectors; "
